@@ -1223,6 +1223,18 @@ pub fn execute(scn: &Scn, opts: &ExecOpts) -> Outcome {
         TriggerSpec::OnStartUp { .. } => rolls > 0 || overlapped,
         _ => rolls > 0,
     };
+    match &scn.roller {
+        RollerSpec::Delete => out.probe("roller_delete", 1),
+        RollerSpec::Fixed { pat, count, .. } => {
+            out.probe(&format!("pattern_{:?}", pat), 1);
+            if *count == 0 {
+                out.probe("roller_count_zero", 1);
+            }
+            if root2.is_some() {
+                out.probe("second_mount_in_use", 1);
+            }
+        }
+    }
     out.sim_ns = now.saturating_sub(scn.start_ns);
     out.summary = summary;
     if let Some(r2) = &root2 {
